@@ -213,7 +213,7 @@ Record gpt_wf_facts (l : gpt_layout) : Prop := {
   gw_guid : length (gl_disk_guid l) = 16%nat /\ bytes_ok (gl_disk_guid l) = true;
   gw_misc : gl_table_crc l < 4294967296 /\ gl_backup_lba l < 18446744073709551616 /\
             gl_first_usable l < 18446744073709551616 /\ gl_last_usable l < 18446744073709551616;
-  gw_pmbr : match gl_pmbr l with Some s => s < 4294967296 | None => True end }.
+  gw_sector0 : length (gl_sector0 l) = 512%nat /\ bytes_ok (gl_sector0 l) = true }.
 
 Lemma wf_gpt_parts l : wf_gpt l = true -> gpt_wf_facts l.
 Proof.
@@ -225,8 +225,7 @@ Proof.
          | H : (_ =? _)%nat = true |- _ => apply Nat.eqb_eq in H
          end.
   constructor; auto.
-  - destruct (gl_entries l); [discriminate|discriminate].
-  - destruct (gl_pmbr l); [now apply u32_lt|exact I].
+  destruct (gl_entries l); [discriminate|discriminate].
 Qed.
 
 Lemma header_vals_ok l crc :
@@ -267,11 +266,7 @@ Record gpt_image_facts (S : N) (l : gpt_layout) (img : list N) : Prop := {
   gf_table : gpt_table {| g_mem := img; g_ss := S; g_hdr := header_vals l (header_crc l) |}
              = table_bytes S l;
   gf_need : S * entries_need (gl_entries l) <= lenN img;
-  gf_sector0 : exists A rest, img = A ++ rest /\
-               A = match gl_pmbr l with
-                   | Some size => boot_sector 0 (part_entry PROTECTIVE 1 size) empty_entry empty_entry empty_entry
-                   | None => zeros 512
-                   end }.
+  gf_sector0 : exists rest, img = gl_sector0 l ++ rest }.
 
 Lemma lenN_entries_concat l :
   gpt_wf_facts l ->
@@ -298,11 +293,8 @@ Proof.
   intros HS W0. pose proof (sector_ok_ge S HS) as HS'. pose proof (wf_gpt_parts l W0) as W.
   destruct (gw_tlba l W) as [Ht2 Ht64].
   unfold gpt_image. fold (table_bytes S l).
-  set (A := match gl_pmbr l with Some size => _ | None => _ end).
-  assert (LA : lenN A = 512).
-  { subst A. pose proof (gw_pmbr l W) as P. destruct (gl_pmbr l) as [size|]; [|apply lenN_zeros].
-    apply lenN_boot_sector; try apply empty_entry_16; try lia.
-    apply part_entry_16; unfold PROTECTIVE; lia. }
+  set (A := gl_sector0 l).
+  assert (LA : lenN A = 512) by (subst A; unfold lenN; rewrite (proj1 (gw_sector0 l W)); reflexivity).
   set (hdr := header_bytes l ++ zeros (S - 92)).
   assert (Hcrc : header_crc l < 4294967296) by apply crc32_bound.
   assert (Lh : lenN hdr = S).
@@ -328,7 +320,7 @@ Proof.
     + subst gap. rewrite !lenN_app, !lenN_fillN, LA, Lh. nia.
     + rewrite lenN_table_bytes by assumption. nia.
   - subst tailfill gap. rewrite !lenN_app, !lenN_fillN, LA, Lh, lenN_table_bytes by assumption. nia.
-  - exists A, (fillN (S - 512) 512 ++ hdr ++ gap ++ table_bytes S l ++ tailfill). split; reflexivity.
+  - exists (fillN (S - 512) 512 ++ hdr ++ gap ++ table_bytes S l ++ tailfill). reflexivity.
 Qed.
 
 (* ================================================================ entry fields *)
@@ -575,18 +567,18 @@ Qed.
 
 (* ================================================================ protective MBR *)
 Theorem protective_mbr_rejected S l size :
-  sector_ok S -> wf_gpt l = true -> gl_pmbr l = Some size ->
+  sector_ok S -> wf_gpt l = true -> size < 4294967296 -> gl_sector0 l = protective_sector size ->
   mbr_init (gpt_image S l) S = Err ValueError.
 Proof.
-  intros HS W0 P. pose proof (wf_gpt_parts l W0) as W.
-  destruct (gpt_image_ok S l HS W0) as [_ _ _ (A & rest & Himg & HA)].
-  rewrite P in HA. pose proof (gw_pmbr l W) as Hsz. rewrite P in Hsz.
+  intros HS W0 Hsz P. pose proof (wf_gpt_parts l W0) as W.
+  destruct (gpt_image_ok S l HS W0) as [_ _ _ (rest & Himg)].
+  rewrite P in Himg. unfold protective_sector in Himg.
   assert (T : PROTECTIVE < 256) by (unfold PROTECTIVE; lia).
   assert (E16 : entry16 (part_entry PROTECTIVE 1 size)) by (apply part_entry_16; lia).
   set (img := gpt_image S l) in *.
   set (hv := boot_vals 0 (part_entry PROTECTIVE 1 size) empty_entry empty_entry empty_entry).
   assert (Hboot : unpack_from MBR_HEADER img 0 = Ok hv).
-  { rewrite Himg, HA. change 0 with (lenN (@nil N)) at 1. rewrite <- (app_nil_l (boot_sector _ _ _ _ _ ++ rest)).
+  { rewrite Himg. change 0 with (lenN (@nil N)) at 1. rewrite <- (app_nil_l (boot_sector _ _ _ _ _ ++ rest)).
     apply read_boot_sector; auto using empty_entry_16; lia. }
   set (m := {| m_mem := img; m_ss := S; m_hdr := hv |}).
   assert (GP : get_primary m = Ok [(1, mk (PROTECTIVE, 1, size))]).
@@ -604,13 +596,13 @@ Proof.
 Qed.
 
 Theorem protective_defers S l size :
-  sector_ok S -> wf_gpt l = true -> gl_pmbr l = Some size ->
+  sector_ok S -> wf_gpt l = true -> size < 4294967296 -> gl_sector0 l = protective_sector size ->
   let img := gpt_image S l in
   (exists g, partitions img S = Ok (TabGPT g) /\
              tab_keys (TabGPT g) = Ok (map fst (gpt_defined l))) /\
   mbr_init img S = Err ValueError.
 Proof.
-  intros HS W0 P img. split; [|now apply (protective_mbr_rejected S l size)].
+  intros HS W0 Hsz P img. split; [|now apply (protective_mbr_rejected S l size)].
   destruct (parse_build_gpt S l HS W0) as (t & Hp & Hg & Hk & _). fold img in Hp.
   destruct t as [g|m]; [|discriminate]. exists g. auto.
 Qed.
